@@ -25,7 +25,7 @@ CONST_METRICS = (
     "none", "identity", "scaled", "diag_array", "diag", "dense_array", "dense", "chol_lower", "chol_upper", "eig",
     "block", "lowrank_plus", "lowrank_minus", "softabs_const", "product",
 )
-CONSTRAINTS = ("hyperplane", "hyperplanes2", "sphere", "quadric", "two_quadrics")
+CONSTRAINTS = ("hyperplane", "hyperplanes2", "sphere", "quadric", "two_quadrics", "arctan_sphere", "arctan_quadric")
 
 
 def _rng(*keys) -> np.random.Generator:
@@ -132,13 +132,19 @@ def softabs_dense(hess, coeff):
 
 # ------------------------------------------------------------------------ constraints
 class Constraint:
-    """c_i(q) = q'B_i q + d_i.q - e_i  (B_i symmetric; hyperplane: B = 0; sphere: B = I, d = 0)."""
+    """c_i(q) = phi(g_i(q)),  g_i(q) = q'B_i q + d_i.q - e_i  (B_i symmetric; hyperplane: B = 0; sphere: B = I, d = 0).
+
+    phi is the identity, or for the ``arctan_*`` kinds the strongly non-linear phi(x) = arctan(5 x) / 5 (same zero set,
+    saturating away from it, so that Newton projections overshoot and line searches really backtrack).
+    """
 
     def __init__(self, kind: str, dim: int, rng) -> None:
         self.kind, self.dim = kind, dim
-        if kind == "hyperplane":
+        self.arctan = kind.startswith("arctan_")
+        base = kind[len("arctan_"):] if self.arctan else kind
+        if base == "hyperplane":
             n = 1
-        elif kind in ("hyperplanes2", "two_quadrics"):
+        elif base in ("hyperplanes2", "two_quadrics"):
             n = 2
         else:
             n = 1
@@ -148,13 +154,13 @@ class Constraint:
         self.B = np.zeros((n, dim, dim))
         self.d = np.zeros((n, dim))
         for i in range(n):
-            if kind.startswith("hyperplane"):
+            if base.startswith("hyperplane"):
                 self.d[i] = rng.standard_normal(dim)
-            elif kind == "sphere":
+            elif base == "sphere":
                 self.B[i] = np.identity(dim)
             else:
                 b, _, _ = random_spd(rng, dim, 0.5, 1.5)
-                if kind == "two_quadrics" and i == 1:
+                if base == "two_quadrics" and i == 1:
                     b = b - 0.8 * np.identity(dim) * rng.uniform(0.2, 0.6)
                 self.B[i] = b
                 self.d[i] = rng.standard_normal(dim) * 0.3
@@ -163,17 +169,33 @@ class Constraint:
         self.e = np.array([q0 @ self.B[i] @ q0 + self.d[i] @ q0 for i in range(n)])
         self.q0 = q0
 
-    def c(self, q):
+    def g(self, q):
         return np.einsum("j,ijk,k->i", q, self.B, q) + self.d @ q - self.e
 
-    def jac(self, q):
+    def gjac(self, q):
         return 2 * np.einsum("ijk,k->ij", self.B, q) + self.d
 
-    def hess(self):
-        return 2 * self.B  # (n, dim, dim), constant
+    def c(self, q):
+        g = self.g(q)
+        return np.arctan(5 * g) / 5 if self.arctan else g
 
-    def mhp(self, q):  # noqa: ARG002
-        h = self.hess()
+    def jac(self, q):
+        gj = self.gjac(q)
+        if not self.arctan:
+            return gj
+        return gj / (1 + 25 * self.g(q) ** 2)[:, None]
+
+    def hess(self, q=None):
+        """(n, dim, dim) second derivatives of c at q (constant for the polynomial kinds)."""
+        if not self.arctan:
+            return 2 * self.B
+        g, gj = self.g(q), self.gjac(q)
+        d1 = 1 / (1 + 25 * g**2)
+        d2 = -50 * g / (1 + 25 * g**2) ** 2
+        return d1[:, None, None] * 2 * self.B + d2[:, None, None] * np.einsum("ij,ik->ijk", gj, gj)
+
+    def mhp(self, q):
+        h = self.hess(q)
         return lambda m: np.einsum("ij,ijk->k", m, h)
 
     def project(self, q, metric_inv=None, tol=1e-13, max_iter=100):
